@@ -11,9 +11,7 @@
      svgtext <pal> <fg> <bg> <flag> <input>
         n=<lines> then the text of each line's foreground spans (code points joined
         by '.', '-' for an empty line); spec side: the visible text of Spec/Sgr
-        spec_runs split by Spec/SvgSpec svg_split_nl_dropping_cr -- N/A when a line
-        keeps a carriage return (the class of the recorded findings)
-     svgtextk: the same without that exception (witnesses of known_findings.txt)
+        spec_runs split by Spec/SvgSpec svg_split_nl_dropping_cr
      svgraw  <pal> <fg> <bg> <flag> <input> <width_px> <fills>
         the bytes of svg_print (hex); the two oracle quantities of unicode_width
         come from the case line: <fills> = <hex of escaped fragment>=<cells>,.. or -
@@ -107,18 +105,15 @@ let run kind side f =
         if not (valid_utf8 data) then "INVALID-UTF8"
         else
           match (kind, side) with
-          | (`Text | `TextK), `Spec ->
+          | `Text, `Spec ->
               let runs = spec_runs data in
-              let ls = svg_split_nl_dropping_cr (List.concat (List.map snd runs)) in
-              (* a line that keeps a carriage return: the class of the recorded findings; only the
-                 witnesses of known_findings.txt (kind svgtextk) ask for it *)
-              if kind = `Text && List.exists (List.exists (fun c -> int_of_n c = 13)) ls then "N/A" else show_text_lines ls
+              show_text_lines (svg_split_nl_dropping_cr (List.concat (List.map snd runs)))
           | _, `Spec -> "N/A"
           | _, `Model -> (
               let d = unopt (svg_m_doc (palette_of pal) (colour_of fg) (colour_of bg) (flag = "1") data) in
               match kind with
               | `Doc -> show_doc d
-              | `Text | `TextK -> show_text_lines (List.map svg_line_text (svg_fg_lines d))
+              | `Text -> show_text_lines (List.map svg_line_text (svg_fg_lines d))
               | `Raw ->
                   let w, fills = match rest with [ w; fl ] -> (int_of_string w, fl) | _ -> (0, "-") in
                   let out = str_of (svg_m_print (n_of_int w) (oracle_of fills) d) in
@@ -129,6 +124,5 @@ let run kind side f =
 let () =
   register "svgdoc" (run `Doc);
   register "svgtext" (run `Text);
-  register "svgtextk" (run `TextK);
   register "svgraw" (run `Raw);
   register "svg" (run `Raw)
